@@ -270,6 +270,12 @@ def extra_cases(S, tier):
     inner = ("struct", "In", (("a", 0, U(32), None, None), ("b", 1, U(16), None, None)))
     outer = ("struct", "Msg", (("h", 0, U(32), None, None), ("n", 1, ("ref", "In"), None, None)))
     cases.append(("oversize-big-endian", 80, [inner, outer, ("impl", "can", "Msg", None, (("id", 2), ("device", "ecu")), (("b", (big,)),))]))
+    # oversize structs bound to a protocol whose name differs from 'can' only in case: whether that counts as a CAN binding
+    # is the front end's business, but whoever describes the message has to measure it first
+    for proto in ("CAN", "Can", "cAN"):
+        for widths in ((64, 8), (32, 32, 8)):
+            decl = ("struct", "Msg", tuple(("f%d" % i, i, U(w), None, None) for i, w in enumerate(widths)))
+            cases.append(("protocol-spelled-" + proto, sum(widths), [decl, ("impl", proto, "Msg", None, (("id", 2), ("device", "ecu")), ())]))
     for kind, bits, decls in cases:
         text = print_schema(decls)
         fcp = get_fcp_from_string(text, Logger({})).unwrap()
@@ -284,8 +290,9 @@ def extra_cases(S, tier):
             res = None
         S.add("outcomes", (kind, "dbc", res is None))
         if res is not None:
-            if bits > 64:
-                S.violation("C14.dbc", "C14.dbc/message-emitted/size>64/%s" % kind, dict(inp, generator="dbc"), expected="generation fails", actual=[l for t in res.values() for l in t.split("\n") if l.startswith(("BO_", " SG_"))])
+            described = [l for t in res.values() for l in t.split("\n") if l.startswith(("BO_ ", " SG_"))]
+            if bits > 64 and (described or not kind.startswith("protocol-spelled-")):
+                S.violation("C14.dbc", "C14.dbc/message-emitted/size>64/%s" % kind, dict(inp, generator="dbc"), expected="generation fails", actual=described)
             for t in res.values():
                 for m in dbcread.read(t)["messages"].values():
                     errs = geometry_errors(m)
@@ -304,9 +311,9 @@ def extra_cases(S, tier):
                 verdict = "exception"
             written = {fn: open(os.path.join(out, fn)).read() for fn in sorted(os.listdir(out))}
             S.add("outcomes", (kind, "c", verdict))
-            if bits > 64 and (verdict == "ok" or any("CanMsgMsg" in t for t in written.values())):
+            if bits > 64 and ((verdict == "ok" and not kind.startswith("protocol-spelled-")) or any("CanMsgMsg" in t for t in written.values())):
                 S.violation("C14.c", "C14.c/message-emitted/size>64/%s" % kind, dict(inp, generator="can_c"), expected="command fails", actual={"verdict": verdict, "files": sorted(written)})
-            if verdict == "ok":
+            if verdict == "ok" and not (kind.startswith("protocol-spelled-") and not any("CanMsgMsg" in t for t in written.values())):
                 errs = c_geometry_errors(written.get("ecu_can.c", ""), "msg")
                 if errs:
                     S.violation("C14.geometry", "C14.geometry/c/%s" % kind, dict(inp, generator="can_c"), expected="signals inside the frame, no overlap", actual=errs[:4])
